@@ -541,6 +541,53 @@ def _enum_arg_guard(fn, bb, adt=None):
     return best
 
 
+def _variants_reaching(P, ctx, at, op, adt, depth=3):
+    """the variants of enum `adt` the value of operand `op` can have at block `at` of function ctx, read from the enclosing match over the
+    very same value; a captured variable is followed to where the closure was built, an argument of a helper that is new to the tree
+    to every call of that helper.  None when the value is not pinned down by such a match."""
+    if depth < 0 or op.get("k") not in ("copy", "move"):
+        return None
+    for _ in range(3):
+        os_ = F.origins(ctx, op, depth=8, through_calls=False)
+        if not os_ or not all(o.kind == "arg" for o in os_) or len(set(o.arg for o in os_)) != 1:
+            return None
+        if ctx.kind != "Closure":
+            break
+        if os_[0].arg != 1:
+            return None
+        flds = [e["f"] for e in (os_[0].place or {}).get("p", []) if isinstance(e, dict) and "f" in e]
+        par = P.fns.get(ctx.parent_key)
+        if par is None or not flds:
+            return None
+        made = [(i, st) for i, st in par.stmts() if st["k"] == "assign" and st["rv"]["k"] == "aggr" and st["rv"].get("ak") == "closure" and
+                st["rv"].get("closure") == ctx.raw["key"] and len(st["rv"]["ops"]) > flds[0]]
+        if len(made) != 1:
+            return None
+        at, op, ctx = made[0][0], made[0][1]["rv"]["ops"][flds[0]], par
+    else:
+        return None
+    root_arg = os_[0].arg
+    cg = _enum_arg_guard(ctx, at, adt)
+    if cg is not None and cg[1] == root_arg:
+        return cg[0]
+    # no match here: a helper carved out of the function that matches - look at the helper's own callers
+    if PR.pinned_fns() and ctx.spath not in PR.pinned_fns():
+        base = P.fns.get(ctx.key, ctx)
+        sites = [(h, c) for h in P.fns.values() for c in h.calls if base.key in P.callee_keys(h, c)]
+        if not sites:
+            return None
+        out = set()
+        for h, c in sites:
+            if root_arg - 1 >= len(c.args):
+                return None
+            vs = _variants_reaching(P, h, c.bb, c.args[root_arg - 1], adt, depth - 1)
+            if vs is None:
+                return None
+            out |= vs
+        return out
+    return None
+
+
 def mech_excluded_variant(site):
     """panic!/unimplemented!/unreachable! in the arm of a match over an enum argument, where every call of the function sits in an arm of
     its caller's match over the very same value, for other variants: the arm cannot be entered"""
@@ -558,36 +605,12 @@ def mech_excluded_variant(site):
         return None
     seen_vs = set()
     for h, c in callers:
-        if argidx - 1 >= len(c.args) or c.args[argidx - 1].get("k") not in ("copy", "move"):
+        if argidx - 1 >= len(c.args):
             return None
-        ctx, at, op = h, c.bb, c.args[argidx - 1]
-        for _ in range(3):
-            os_ = F.origins(ctx, op, depth=8, through_calls=False)
-            if not os_ or not all(o.kind == "arg" for o in os_) or len(set(o.arg for o in os_)) != 1:
-                return None
-            if ctx.kind != "Closure":
-                break
-            # a captured variable: continue in the function that built the closure, at the place where it was built
-            if os_[0].arg != 1:
-                return None
-            flds = [e["f"] for e in (os_[0].place or {}).get("p", []) if isinstance(e, dict) and "f" in e]
-            par = P.fns.get(ctx.parent_key)
-            if par is None or not flds:
-                return None
-            made = [(i, st) for i, st in par.stmts() if st["k"] == "assign" and st["rv"]["k"] == "aggr" and st["rv"].get("ak") == "closure" and
-                    st["rv"].get("closure") == ctx.raw["key"] and len(st["rv"]["ops"]) > flds[0]]
-            if len(made) != 1:
-                return None
-            at, op, ctx = made[0][0], made[0][1]["rv"]["ops"][flds[0]], par
-        else:
+        cv = _variants_reaching(P, h, c.bb, c.args[argidx - 1], adt)
+        if cv is None or (cv & vs):
             return None
-        root_arg = os_[0].arg
-        cg = _enum_arg_guard(ctx, at, adt)
-        if cg is None or cg[1] != root_arg:
-            return None
-        if cg[0] & vs:
-            return None
-        seen_vs |= cg[0]
+        seen_vs |= cv
     return "arm for %s of a match over argument %d: every call of the function (%d) sits in a match arm of its caller over the same " \
            "value for other variants (%s)" % ("/".join(sorted(vs)), argidx, len(callers), "/".join(sorted(seen_vs)))
 
